@@ -42,11 +42,11 @@ CHECKS = {
             "Sources returning (0, nil) are not injected (io.Reader discourages them and the property does not speak about them).",
             SIM + "short-read fault injection at the simulated source; differential oracle against one-piece I/O"),
     "C07": ("exploration",
-            "Every block task of the real Writer/Reader runs under the simulator's scheduler (6 policies incl. PCT-style priorities and starvation); faults: task failure at a named protocol step, sink/source errors (transient, permanent, torn), truncation, bit flips so that a task fails after publishing. The trace is checked online against the hand-off reference automaton (exclusive, in-order acquisition, I/O only by the holder, nothing after observing cancel), deadlock detection is exact (no runnable task left), a failed task must surface as an error of the enclosing call.",
-            "Trusts the placement of the simhook points in v2/io/CompressedStream.go and the automaton in harness/model/handoff.go. Sampling, not proof.",
+            "Every block task of the real Writer/Reader runs under the simulator's scheduler (6 policies incl. PCT-style priorities and starvation); faults: task failure at a named protocol step, sink/source errors (transient, permanent, torn), truncation, bit flips so that a task fails after publishing. The trace is checked online against the hand-off reference automaton (exclusive, in-order acquisition, I/O only by the holder, nothing after observing cancel), deadlock detection is exact (no runnable task left), a failed task must surface as an error of the enclosing call, and no call may return while one of its block tasks is still running (the WaitGroup of the tasks is itself a seam: Add/Done/Wait are scheduled in code order).",
+            "Trusts the placement of the simhook points in v2/io/CompressedStream.go (not for the join: that is the code's own WaitGroup) and the automaton in harness/model/handoff.go. Sampling, not proof.",
             SIM + "fault injection + refinement monitor (hand-off automaton) + exact deadlock detection"),
     "C08": ("fault_enumeration",
-            "Per sampled scenario (stream shape x jobs 1-4 x call plan x bitstream buffer sizes) the fault-free run counts the sink (Write+Close) or source (Read) calls, then the failure is injected at EVERY call index k (exhaustive over k), kind (transient / permanent / torn or with-data) drawn per k, caller retries Close/Read 0-2 times. Oracle: no panic escapes; a failed sink call is reported by that API call or a later one before success; Close()==nil only if the sink holds the complete stream; EOF only with complete data; delivered bytes always a prefix.",
+            "Per sampled scenario (stream shape x jobs 1-4 x call plan x bitstream buffer sizes x source delivering whole reads or chunks of a drawn size) the fault-free run counts the sink (Write+Close) or source (Read) calls, then the failure is injected at EVERY call index k (exhaustive over k), kind (transient / permanent / torn or with-data) drawn per k, caller retries Close/Read 0-2 times. Oracle: no panic escapes; a failed sink call is reported by that API call or a later one before success; Close()==nil only if the sink holds the complete stream; EOF only with complete data; delivered bytes always a prefix; a transient source failure that no call reports is accepted only if the reader obtained no further byte from the source after it (a read-ahead that was never needed).",
             "Exhaustive over the call index per scenario, sampled over scenarios and fault kinds. Torn writes are injected as permanent faults only.",
             SIM + "fault enumeration over every sink/source call index per scenario"),
     "C09": ("fault_enumeration",
@@ -70,7 +70,7 @@ CHECKS = {
             "After a failed Close only Close/GetWritten are issued (the state is not specified by the property); a failure that hit a block task leaves the writer permanently failed, which is C08's business.",
             SIM + "random API call histories against a lifecycle reference machine"),
     "C18": ("exploration",
-            "K = 2-4 (thorough: up to 8) driver tasks in one process, each compressing then decompressing its own stream (codecs weighted toward those with package-level tables: TEXT dictionary, CM/TPAQ/FPAQ tables, Huffman, BWT; thorough adds blocks above 4 MiB so the inverse-BWT helper goroutines run), all block tasks of all streams under ONE seeded scheduler (which also interleaves tasks between the stages of their transform chains and while their entropy codec objects are alive) plus the hand-off monitor per stream. The worker is built with -race and the simulator's baton is wrapped in runtime.RaceDisable, so the happens-before relation the detector judges is the library's own and the verdict is a function of the (replayable) schedule. Oracle: per instance, compressed and decoded bytes equal those of the same instance run alone; no race report (exit 66 is charged to the case in flight and confirmed by replaying it alone).",
+            "K = 2-4 (thorough: up to 8) driver tasks in one process, each compressing then decompressing its own stream (codecs weighted toward those with package-level tables: TEXT dictionary, CM/TPAQ/FPAQ tables, Huffman, BWT; thorough adds blocks above 4 MiB so the inverse-BWT helper goroutines run), all block tasks of all streams under ONE seeded scheduler (which also interleaves tasks between the stages of their transform chains and while their entropy codec objects are alive) plus the hand-off monitor per stream. The worker is built with -race and the simulator's baton is wrapped in runtime.RaceDisable, so the happens-before relation the detector judges is the library's own and the verdict is a function of the (replayable) schedule. The concurrent run comes first and the isolated reference runs afterwards, and every worker process is replaced after 3 cases, so that state the library initialises on first use meets concurrent first users again and again. Oracle: per instance, compressed and decoded bytes equal those of the same instance run alone; no race report (exit 66 is charged to the case in flight and confirmed by replaying it alone, or after the same preceding cases of its worker when the shared state is history-dependent).",
             "The race detector sees only the executions explored (sampling). Race builds are about 8x slower: fewer cases than the other checks.",
             SIM + "K concurrent pipelines under one scheduler, Go race detector with a baton invisible to it, differential oracle against isolated runs"),
     "C19": ("exploration",
@@ -118,7 +118,8 @@ def main():
             "enable": "go1.26.8 build -tags verif from the harness module /verif/harness (replace github.com/flanglet/kanzi-go/v2 => /repo/v2)",
             "baseline_off_cmd": "for m in . ./v2; do (cd /repo/$m && go test -mod=mod -json -vet=off -count=1 -timeout 25m ./...); done",
             "source_commits": list(reversed(hook_commits)),
-            "add_only": True,
+            "add_only": False,
+            "add_only_note": "commits bfcb027, 2bcb00b, a775fed, 1cf3bb0 only add lines. 2a99400 replaces the type name sync.WaitGroup by simhook.WaitGroup on four lines of v2/io/CompressedStream.go (a type alias of sync.WaitGroup when the guard is off) and drops the then unused import; it also moves/deletes hook lines added by earlier hook commits. 8add45f touches only v2/internal/simhook.",
         },
         "engines": [{
             "name": "ksim", "path": "/verif/harness", "serves_properties": [c["property_id"] for c in checks],
